@@ -617,6 +617,38 @@ func genC20(g *Gen) {
 			})
 		}
 	}
+	// ---- period probes: a permission, then a trigger (or several) at a chosen fraction of the period,
+	// then one or two Nexts — every wait, trailing on and off
+	for _, d := range []int64{5000, 10000, 20000, 50000} {
+		for _, trailing := range []bool{false, true} {
+			for _, num := range []int64{1, 2, 3, 4} { // sleep = num*d/4 + d/8 : 3/8, 5/8, 7/8, 9/8 of the period
+				sl := num*d/4 + d/8
+				for _, ncall := range []int{1, 2} {
+					for _, nnext := range []int{1, 2} {
+						ops := [][2]int64{{0, 0}, {1, d / 4}, {3, sl}}
+						for i := 0; i < ncall; i++ {
+							ops = append(ops, [2]int64{0, 0})
+						}
+						for i := 0; i < nnext; i++ {
+							ops = append(ops, [2]int64{1, d / 4})
+						}
+						add("exhaustive", c20ThrIn(d, trailing, ops))
+						// the same with the Nexts already blocked when the trigger arrives
+						ops2 := [][2]int64{{0, 0}, {1, d / 4}}
+						for i := 0; i < nnext; i++ {
+							ops2 = append(ops2, [2]int64{1, 0})
+						}
+						ops2 = append(ops2, [2]int64{3, sl})
+						for i := 0; i < ncall; i++ {
+							ops2 = append(ops2, [2]int64{0, 0})
+						}
+						ops2 = append(ops2, [2]int64{3, d * 3 / 2})
+						add("exhaustive", c20ThrIn(d, trailing, ops2))
+					}
+				}
+			}
+		}
+	}
 	g.Exhaustive("exhaustive")
 
 	// ---- seeded random: longer scripts, every wait, arbitrary sleeps up to 2.2 periods
@@ -693,7 +725,8 @@ func init() {
 			"exhaustive: Delay x {no stop, stop at 0, w/2, 1.5w, 2w} for w in {5,10,20,50} ms; all debounce scripts over " +
 			"{Call, Cancel, gap w/3, gap 1.6w} up to length 4 (thorough 6); bursts of 1..50 calls x second burst x gap below/above x every " +
 			"placement of cancel for every wait; all throttle scripts over {Call, Next joined <= d/4, Next not joined, Cancel, sleep d/4, " +
-			"sleep 1.5d} up to length 4 at d = 20 ms and 3 at 5 ms (thorough 6/5/4/4 at 20/5/10/50 ms), trailing on and off; then seeded random " +
+			"sleep 1.5d} up to length 4 at d = 20 ms and 3 at 5 ms (thorough 6/5/4/4 at 20/5/10/50 ms), trailing on and off; period probes (a permission, " +
+			"then 1-2 triggers at 3/8, 5/8, 7/8, 9/8 of the period, with 1-2 Nexts after them or already blocked) for every wait; then seeded random " +
 			"scripts with arbitrary sleeps. Non-trivial: Delay with a Stop; debounce with >= 2 calls or a cancel after a call; throttle with a " +
 			"permission followed by a further Call or Next. Counters named discarded:* count comparisons whose deciding inequality " +
 			"has < 3 ms of slack (the acceptor then allows both outcomes).",
